@@ -449,6 +449,8 @@ def run(repo, rep):
     rep.run_borrowed(c04, {"C04-b": "C03-t", "C04-e": "C03-t"}, repo)
     rep.clause("C03-u", "a rolling buffer has the shape of the stripes that are scheduled through it: adopting an optimised sub-schedule replaces operator costs and cascade records together, the new entries taking precedence")
     rule_sub_schedule_merge(repo, rep)
+    rep.clause("C03-v", "a PAD lowered to a concatenation writes the whole padded tensor: convert_pad_to_concat goes ahead only where the padding of every axis other than the concatenation axis is zero")
+    rule_pad_to_concat_rows(repo, rep)
     rep.run_borrowed(c08, {"C08-f": "C03-g"}, repo)
 
 
@@ -715,3 +717,36 @@ def rule_sub_schedule_merge(repo, rep):
         else:
             rep.check(seen[member][0], "C03-u", site, f"`{seen[member][1][:90]}`: the optimised sub-schedule's entries take precedence",
                       "the existing entries win: the cascade keeps the rolling-buffer shapes of the schedule it replaces while the cost map gets the enlarged stripes (rolling buffer of 6 rows for 5-row stripes that need 14)")
+
+
+def rule_pad_to_concat_rows(repo, rep):
+    """(v) convert_pad_to_concat rewrites a PAD that pads the last (or first) axis into a concatenation along that axis whose border tensors
+    take every other extent from the *input* (`shape = inp.shape.copy(); shape[axis] = ..`). The concatenation therefore writes an output
+    whose other extents equal the input's: the rewrite may go ahead only where the function has established that the padding of every
+    other axis is zero (a returning test over the other rows of the paddings tensor). Otherwise the rows / columns the PAD was to add are
+    never written and the consumers read undefined bytes."""
+    go = repo.mod("tflite_graph_optimiser")
+    fn = go.func("convert_pad_to_concat")
+    site = "ethosu/vela/tflite_graph_optimiser.py:convert_pad_to_concat"
+    retype = [st for st in ast.walk(fn) if isinstance(st, ast.Assign) and str(norm(st)) == "op.type = Op.ConcatTFLite"]
+    borders = [st for st in ast.walk(fn) if isinstance(st, ast.Assign) and str(norm(st.targets[0])) == "shape" and str(norm(st.value)) in ("inp.shape.copy()", "list(inp.shape)", "op.ifm.shape.copy()")]
+    if len(retype) != 1 or not borders:
+        raise AnalysisError("convert_pad_to_concat: re-typing / border shapes not found")
+    # a test that looks at the rows other than `axis`: any early return (or enclosing condition) whose test reduces the paddings over a
+    # row set excluding the chosen one - recognised forms: np.delete(<vals>, axis, ..), a comprehension with `i != axis`, np.count_nonzero
+    # over a masked copy, or separate sums over every row index
+    guards = []
+    for i_ in ast.walk(fn):
+        if isinstance(i_, ast.If) and i_.lineno < retype[0].lineno and i_.body and isinstance(i_.body[-1], ast.Return):
+            t = str(norm(i_.test))
+            if "np.delete(" in t or "!= axis" in t or "count_nonzero" in t or ("any(" in t and "axis" in t):
+                guards.append(t)
+    for st in ast.walk(fn):
+        if isinstance(st, ast.Assign) and isinstance(st.targets[0], ast.Name) and ("np.delete(" in str(norm(st.value)) or "!= axis" in str(norm(st.value))):
+            nm = st.targets[0].id
+            for i_ in ast.walk(fn):
+                if isinstance(i_, ast.If) and nm in str(norm(i_.test)) and i_.body and isinstance(i_.body[-1], ast.Return) and i_.lineno < retype[0].lineno:
+                    guards.append(str(norm(i_.test)))
+    rep.check(bool(guards), "C03-v", site, "the PAD is turned into a concatenation only where the padding of every other axis is zero",
+              "no returning test over the other rows of the paddings tensor precedes `op.type = Op.ConcatTFLite`: a PAD of depth *and* height / width ([[0,0],[1,1],[1,1],[4,4]]) becomes a depth concatenation "
+              "of input-sized pieces - 864 bytes of the [1,10,10,24] result are never written and are read by the next operator")
